@@ -7,25 +7,27 @@ import (
 
 func TestDbg3(t *testing.T) {
 	f := famT{Name: "single-i2-mtb2", I: 2, MTB: 2}
-	src, err := buildSource(f, []string{"u-storage", "u-storage2", "destroy-ub", "u-storage", "vote1"}, []uint32{6})
+	src, err := buildSource(f, []string{"deploy-uc", "ub-a1", "uc-a1", "u-storage", "uc-a2", "destroy-ub", "u-storage2"}, []uint32{6})
 	if err != nil {
 		t.Fatal(err)
 	}
-	fmt.Println("genesis", src.lite[0]["hash"])
-	conf := &confT{src: src, HInit: 7, P: 6, Mode: "mpt", Order: "lo", prof: profT{}, trie: src.tries[6], items: src.items[6]}
-	v := replayOnce(conf, nil, newStats(nil))
-	fmt.Println(v)
-	// restart right after the jump, no GC
-	r, _ := newRunner(conf, newStats(nil))
-	for !r.complete() {
-		def, _, _ := r.succ(1)
-		if def.K == "pblk" {
-			break
-		}
-		if v := r.do(*def); v != nil {
-			t.Fatal(v)
+	tr := src.tries[6]
+	parents := map[string]int{}
+	for _, ks := range tr.Kids {
+		for _, k := range ks {
+			parents[k.StringBE()]++
 		}
 	}
-	fmt.Println("jumped, height", r.n.BC.BlockHeight())
-	fmt.Println("restart:", r.do(Ev{K: "restart"}))
+	fmt.Println("nodes", len(tr.Nodes), "multi", tr.Multi, "inner", tr.MultiInner)
+	for h, b := range tr.Nodes {
+		n, _ := decodeNode(b)
+		if len(tr.Kids[h]) > 0 && parents[h.StringBE()] > 1 {
+			fmt.Println("shared inner (2 parents)", h.StringBE()[:8], n.Type())
+		}
+	}
+	for k, v := range src.stor[6] {
+		if k[0] != '-' {
+			fmt.Println(k, v)
+		}
+	}
 }
